@@ -19,7 +19,7 @@ use crate::{
 };
 use codespan_reporting::term::{self, Config};
 use laythe_core::{
-  constants::{PLACEHOLDER_NAME, SELF},
+  constants::PLACEHOLDER_NAME,
   hooks::{GcHooks, HookContext, NoContext},
   module::{Module, Package},
   object::{Fun, LyStr, Map},
@@ -223,7 +223,7 @@ impl Vm {
 
     let repl_path = self.root_dir.join(PathBuf::from(REPL_MODULE));
 
-    let main_module = self.module(SELF, "repl");
+    let main_module = self.main_module("repl");
 
     loop {
       let mut buffer = String::new();
@@ -276,7 +276,7 @@ impl Vm {
         // pop the temp roots
         self.pop_roots(2);
 
-        let main_module = self.module(SELF, &managed_path);
+        let main_module = self.main_module(&managed_path);
 
         match self.interpret(false, main_module, &source, file_id) {
           ExecutionResult::Ok(_) => self.internal_error("Shouldn't exit vm with ok result"),
